@@ -262,6 +262,8 @@ PROPS = {
         targets=[
             enum("enum", ["props/C09_enum.cpp"], qs=12, ts=16),
             vg(["props/C09_enum.cpp"]), dbg(["props/C09_enum.cpp"]),
+            # the same cases with the library's own heap allocator (ufw_malloc/ufw_mfree, what rp_default_allocator is made of) instead of the harness's
+            enum("stdheap", ["props/C09_enum.cpp"], qs=4, ts=8, cxxflags=["-DVP_STDHEAP"], extra_objs=["allocator_ledger.o"]),
             dict(name="fuzz", sources=["props/C09_fuzz.cpp"], fuzz=True, lib="fuzz", corpus="C09", max_len=1400,
                  quick=dict(shards=4, runs=60000), thorough=dict(shards=16, runs=3000000, max_total_time=300)),
         ],
